@@ -769,6 +769,9 @@ struct TextEval {
     /// `capture_diff_slices_deadline` on the diff's own token slices under the same clock
     direct: Vec<DiffOp>,
     direct_probes: u64,
+    /// only when `ops` do not carry exact positions: the ops of the SAME text diff (same entry point, tokenizer, algorithm
+    /// and clock) built with the swap repair switched on -- the attribution of C11's known finding
+    ops_repaired: Option<Vec<DiffOp>>,
 }
 
 fn text_eval<T: DiffableStr + ?Sized>(c: &TextCfg, how: DlHow, old: &T, new: &T) -> Option<TextEval> {
@@ -793,7 +796,14 @@ fn text_eval<T: DiffableStr + ?Sized>(c: &TextCfg, how: DlHow, old: &T, new: &T)
     let (direct, _, _, direct_probes) =
         obs::with_world(c.dl, false, |inst| similar::capture_diff_slices_deadline(c.alg, diff.old_slices(), diff.new_slices(), inst));
     let (all_changes, op_changes, old_toks, new_toks, ops, nlt, alg, ratio_bits, grouped_consistent, all_driven) = rest;
-    Some(TextEval { ops, nlt, alg, ratio_bits, grouped_consistent, all_driven, probes, old_toks, new_toks, all_changes, op_changes, direct: direct?, direct_probes })
+    let r = (0, old_toks.len(), 0, new_toks.len());
+    let ops_repaired = if oracle::carried_exact(r, &ops_calls(&ops)).is_err() {
+        let (d2, _, _, _) = obs::with_world(c.dl, true, |inst| build_diff(c, how, inst, old, new).ops().to_vec());
+        d2
+    } else {
+        None
+    };
+    Some(TextEval { ops, nlt, alg, ratio_bits, grouped_consistent, all_driven, probes, old_toks, new_toks, all_changes, op_changes, direct: direct?, direct_probes, ops_repaired })
 }
 
 fn text_eval_mode(c: &TextCfg, how: DlHow, mode: Mode, old: &[u8], new: &[u8]) -> Option<TextEval> {
@@ -930,11 +940,10 @@ fn check_text(ctx: &mut Ctx, req: &str, c: &TextCfg, old: &[u8], new: &[u8], ev:
         ctx.violation("C09", req, format!("TextDiff::ops: {}", e));
     }
     if let Err(e) = oracle::carried_exact(r, &calls) {
-        // attribution: does the failure disappear with the swap repair on (same tokens, same algorithm, same clock)?
-        let mut cc = Case::full(c.alg, &o, &n);
-        cc.dl = c.dl;
-        cc.repair = true;
-        let fixed = super::algs::run_capture(&cc).ops.as_ref().map_or(false, |o2| oracle::carried_exact(r, o2).is_ok());
+        // attribution: does the failure disappear when THE SAME text diff (same entry point, tokens, algorithm, clock) is
+        // built with the swap repair on? (Re-running `capture_diff` on the tokens instead would excuse a stale index
+        // that the text layer itself introduces.)
+        let fixed = ev.ops_repaired.as_ref().map_or(false, |o2| oracle::carried_exact(r, &ops_calls(o2)).is_ok());
         ctx.violation_k("C11", req, format!("TextDiff::ops: {}", e), if fixed { Some("KF-compact-swap") } else { None });
     }
     if c.dl.is_none() && c.alg != Algorithm::Patience && o.len().saturating_mul(n.len()) <= 2_000_000 {
@@ -1337,7 +1346,9 @@ pub fn suite_text(ctx: &mut Ctx) {
                     format!("h{}\n", t).into_bytes()
                 }
             };
-            let n = rng.range(101, 125);
+            // mostly just above the 100-token switch; every fourth case far above it (any further size threshold of a
+            // "trim the shared ends of LARGE texts first" step lies well below 10 000 tokens or is irrelevant in practice)
+            let n = if j % 4 == 3 { [4100, 4300, 8200, 9000][((j / 4) % 4) as usize] + rng.below(50) } else { rng.range(101, 125) };
             let mut head: Vec<u32> = (0..n as u32).map(|i| 10 + i).collect();
             for t in 0..rng.range(1, 3) as u32 {
                 let at = rng.below(head.len());
@@ -1354,10 +1365,28 @@ pub fn suite_text(ctx: &mut Ctx) {
                 v
             };
             let (to, tn) = (tail(&mut rng), tail(&mut rng));
-            let old: Vec<Vec<u8>> = head.iter().chain(to.iter()).map(|&t| tok(t)).collect();
-            let new: Vec<Vec<u8>> = head.iter().chain(tn.iter()).map(|&t| tok(t)).collect();
+            // the shared part in front (a head), or -- every eighth case -- behind the short differing parts (a tail)
+            let (old, new): (Vec<Vec<u8>>, Vec<Vec<u8>>) = if j % 8 == 6 {
+                (to.iter().chain(head.iter()).map(|&t| tok(t)).collect(), tn.iter().chain(head.iter()).map(|&t| tok(t)).collect())
+            } else {
+                (head.iter().chain(to.iter()).map(|&t| tok(t)).collect(), head.iter().chain(tn.iter()).map(|&t| tok(t)).collect())
+            };
             let c = TextCfg { kind: if chars { Kind::Chars } else { Kind::Lines }, alg, nlt: NLTS[(j % 3) as usize], dl: None };
             ctx.count("text.long_shared_head_cases");
+            if n > 4000 {
+                // implementation only (the model's `unique` and id table are quadratic): the validators decide -- C14
+                // (= diff of the token slices), C04, C02, C09, C11, C03 -- in both modes
+                ctx.count("text.long_shared_head_cases.over_4000_tokens");
+                let (o, nn) = (concat(&old), concat(&new));
+                for mode in [Mode::Bytes, Mode::Str] {
+                    let req = text_request(&c, mode, &o, &nn);
+                    match text_eval_mode(&c, DlHow::Deadline, mode, &o, &nn) {
+                        None => ctx.violation("C04", &req, "the text diff panicked".to_string()),
+                        Some(e) => check_text(ctx, &req, &c, &o, &nn, &e),
+                    }
+                }
+                continue;
+            }
             text_pair(ctx, &c, &concat(&old), &concat(&new), j);
         }
     }
